@@ -501,7 +501,7 @@ def firstAnswer (full : Bool) (helper pf ps kind script : String) : String :=
     if !(helper == "scan" || helper == "mapscan" || helper == "exec") then "bad-op" else
     let q : Qry := { ident := 1, prepared := kind != "q", skipMeta := kind == "xs", pageSize := pageSize,
                      pageState := [], disableAutoPage := false }
-    let o := if helper == "exec" then First.queryExec (prefetchPos pf) sc q else First.queryScan (prefetchPos pf) sc q
+    let o := if helper == "exec" then First.queryExec (prefetchPos pf) sc q else First.queryScan (prefetchPos pf) sc false q
     let row := match o.row with | some r => toString r | none => "-"
     s!"row={row} err={showFirstErr o.err}{if full then " reqs=" ++ showReqs 1 o.reqs else ""}"
   | _, _ => "bad-op"
